@@ -30,6 +30,8 @@ pub enum MOp
     /// manual despawn of entity `e`
     Despawn(u8),
     Yield,
+    /// `app.setup_auto_despawn()` again: must change nothing
+    Setup,
 }
 
 #[derive(Clone, Debug, Serialize, Deserialize, PartialEq, Eq, Default)]
@@ -88,7 +90,7 @@ pub fn gen_tprog(seed: u64) -> TProg
     for _ in 0..n
     {
         let s = r.below(nsig as u64) as u8;
-        p.main.push(match r.below(10) { 0..=4 => MOp::Gc, 5 => MOp::Clone(s), 6 | 7 => MOp::Drop(s), 8 => MOp::Despawn(r.below(nent as u64) as u8), _ => MOp::Yield });
+        p.main.push(match r.below(10) { 0..=4 => MOp::Gc, 5 => MOp::Clone(s), 6 | 7 => MOp::Drop(s), 8 => MOp::Despawn(r.below(nent as u64) as u8), _ => if r.chance(50) { MOp::Yield } else { MOp::Setup } });
     }
     p
 }
@@ -236,9 +238,9 @@ fn scenario(p: &TProg, stats: &TStats)
             MOp::Gc =>
             {
                 let gi = sh.tick();
-                garbage_collect_entities(world);
+                garbage_collect_entities(app.world_mut());
                 let gr = sh.tick();
-                check_gc(world, gi, gr, &manual, false);
+                check_gc(app.world(), gi, gr, &manual, false);
                 // idempotence: a second collection right away changes nothing unless more drops landed
             }
             MOp::Clone(s) => { if let Some(h) = main_held[*s as usize].last() { let c = h.sig.clone(); let id = sh.created(*s); main_held[*s as usize].push(Held { sig: c, id }); } }
@@ -246,22 +248,23 @@ fn scenario(p: &TProg, stats: &TStats)
             MOp::Despawn(e) =>
             {
                 let i = *e as usize;
-                if world.get_entity(ents[i]).is_ok() { world.despawn(ents[i]); }
+                if app.world().get_entity(ents[i]).is_ok() { app.world_mut().despawn(ents[i]); }
                 manual[i] = true;
             }
             MOp::Yield => shuttle::thread::yield_now(),
+            MOp::Setup => { app.setup_auto_despawn(); }
         }
     }
     for h in handles { h.join().unwrap(); }
     for v in main_held.into_iter() { for h in v.into_iter().rev() { drop_held(&sh, h); } }
     // everything is dropped now: one collection must remove every guarded entity with its descendants; a second one is a no-op
     let gi = sh.tick();
-    garbage_collect_entities(world);
+    garbage_collect_entities(app.world_mut());
     let gr = sh.tick();
-    check_gc(world, gi, gr, &manual, true);
-    let before = alive_now(world);
-    garbage_collect_entities(world);
-    if alive_now(world) != before { panic!("gc-not-idempotent: a second garbage collection changed the world"); }
+    check_gc(app.world(), gi, gr, &manual, true);
+    let before = alive_now(app.world());
+    garbage_collect_entities(app.world_mut());
+    if alive_now(app.world()) != before { panic!("gc-not-idempotent: a second garbage collection changed the world"); }
     // probes
     {
         let h = sh.hist.lock().unwrap_or_else(|e| e.into_inner());
